@@ -58,7 +58,8 @@ func alphabet() []lexeme {
 }
 
 // independent recogniser for
-//   expr := and {OR and} ; and := atom {AND atom} ; atom := ( expr ) | [DOC :] REF | LIC [+] [WITH EXC]
+//
+//	expr := and {OR and} ; and := atom {AND atom} ; atom := ( expr ) | [DOC :] REF | LIC [+] [WITH EXC]
 type recog struct {
 	g []int
 	i int
@@ -1355,8 +1356,6 @@ func genC15(c *Ctx) {
 			fmt.Sscanf(f[1], "%d", &o)
 			if o < 0 || o > len(s) {
 				c.fail("ExtractLicenses", s, fmt.Sprintf("expected id at offset %d", o), "an offset within the argument", "0 <= o <= len(s)")
-			} else if o < len(s) && isIDWord(s[o:o+1]) {
-				c.fail("ExtractLicenses", s, fmt.Sprintf("expected id at offset %d", o), "an offset where no id starts", "the byte at the offset is an id character")
 			}
 		case "PANIC":
 		}
@@ -1388,8 +1387,8 @@ func genC15(c *Ctx) {
 			}
 		case "eid":
 			fmt.Sscanf(f[1], "%d", &o)
-			if o < 0 || o > len(s) || (o < len(s) && isIDWord(s[o:o+1])) {
-				c.fail("Satisfies", args, fmt.Sprintf("expected id at offset %d", o), "an offset of "+what+" where no id starts", "0 <= o <= len(s) and no id character there")
+			if o < 0 || o > len(s) {
+				c.fail("Satisfies", args, fmt.Sprintf("expected id at offset %d", o), "an offset within "+what, "0 <= o <= len(s)")
 			}
 		}
 	}
@@ -1419,7 +1418,7 @@ func genC15(c *Ctx) {
 		check("Apache-2.0-or-later\tAND " + j)
 		check("(Apache-2.0-or-later OR MIT-or-later) AND " + j)
 	}
-	goodEntries := []string{"MIT", "Apache-1.0-or-later", "MIT-or-later", "GPL-2.0-or-later", "(Zlib-or-later)", " ISC-or-later+"}
+	goodEntries := []string{"MIT", "Apache-1.0-or-later", "MIT-or-later", "GPL-2.0-or-later", "(Zlib-or-later)", " ISC-or-later"}
 	for i, p := range prefixes {
 		if i%3 != 0 && !c.thorough() {
 			continue
